@@ -11,6 +11,7 @@
 From Coq Require Import ZArith NArith List Bool.
 From Tup Require Import Gen.DiacriticsGen Model.PlaceholderModel Spec.TermSpec Spec.PlaceholderSpec Spec.IdFeatureSpec
   Proofs.TermPaintFacts Proofs.PlaceholderToks Proofs.PlaceholderStmt Proofs.PlaceholderMain Proofs.PlaceholderFeatures Proofs.PlaceholderProps.
+From Tup Require Lib.IdSpaceTy Model.IdSpace Model.IdManager Spec.IdLayoutSpec Proofs.IdFeatureBridge Proofs.IdManagerFacts Proofs.IdManagerProofs.
 Import ListNotations.
 Open Scope N_scope.
 
@@ -69,3 +70,24 @@ Example C14_nonvacuous :
   | _, _ => False
   end.
 Proof. vm_compute. repeat split; reflexivity. Qed.
+
+(* The feature spaces above are exactly the ID spaces of the allocator (Spec/IdLayoutSpec.v, properties C10/C01):
+   the two Specs were written independently from the byte layout and are proved equal. *)
+Theorem C14_feature_space_is_id_space : forall (sp : Lib.IdSpaceTy.space) (id : N),
+  legal_space (Proofs.IdFeatureBridge.feature_of sp) = true /\
+  (id_in_space (Proofs.IdFeatureBridge.feature_of sp) id = true <-> Spec.IdLayoutSpec.in_space sp id).
+Proof. intros sp id. split; [apply Proofs.IdFeatureBridge.feature_of_legal|apply Proofs.IdFeatureBridge.feature_space_is_id_space]. Qed.
+Print Assumptions C14_feature_space_is_id_space.
+
+(* Hence every id the library allocates in a space (C01) meets the hypothesis of C14_display_features for that space:
+   an application restricted to the features of the configured space can show every image allocated in it. *)
+Theorem C14_allocated_ids_are_displayable : forall d desc sp sub now mx samples ch id d',
+  Proofs.IdManagerFacts.WF d -> Spec.IdLayoutSpec.valid_sub sub -> Proofs.IdManagerProofs.sound_samples sp sub samples ->
+  Model.IdManager.get_id d desc sp sub now mx samples ch = (Model.IdManager.GotId id, d') ->
+  legal_space (Proofs.IdFeatureBridge.feature_of sp) = true /\ id_in_space (Proofs.IdFeatureBridge.feature_of sp) id = true.
+Proof.
+  intros d desc sp sub now mx samples ch id d' Hw Hv Hs Hg. split; [apply Proofs.IdFeatureBridge.feature_of_legal|].
+  apply Proofs.IdFeatureBridge.feature_space_is_id_space.
+  exact (proj1 (Proofs.IdManagerProofs.get_id_in_subspace d desc sp sub now mx samples ch id d' Hw Hv Hs Hg)).
+Qed.
+Print Assumptions C14_allocated_ids_are_displayable.
